@@ -5,3 +5,4 @@ import SdxProofs.AnonLemmas
 import SdxProofs.CounterLemmas
 import SdxProofs.FlattenLemmas
 import SdxProofs.TreeLemmas
+import SdxProofs.Height
